@@ -32,7 +32,10 @@ CLAIMS = {
  "C15": dict(text="Invariant proved for every history of calls (accepted and rejected), flushes, drains and worker "
              "steps with arbitrary outcomes from a fresh store: size = sum of resident payload sizes, keys distinct "
              "and sorted, none above last; over-limit after an insert => all resident above the boundary; drained "
-             "=> none at or below the boundary. Restarts are covered by correspondence only.",
+             "=> none at or below the boundary; the same across clean restarts (Props/C15Restart). Call level (Props/C15Call): after ANY "
+             "append call that inserted at least one entry - accepted, or refused at a later entry, or failing in a rotation - if a limit "
+             "is exceeded every resident id is above the boundary, the boundary and limits are unchanged by caller-side calls, the other "
+             "five calls only shrink the resident set; lifted to every reachable state incl. restarts.",
              technique="Lean 4 invariant by induction over system steps + correspondence on stat/resident-set after every step",
              ref="8 C15"),
  "C16": dict(text="Every panic site reachable from the write API is an explicit branch of the model; proved unreachable "
@@ -80,11 +83,19 @@ CLAIMS = {
              "class is a recorded finding.",
              technique="Lean 4 decision lemmas about openStore + crash-image enumeration with model correspondence",
              ref="8 C05"),
- "C08": dict(text="Proved: unlinking starts only when the last sync succeeded (every listed file synced), ids are unlinked in list "
-             "order postponed ++ requested, popObsolete drops exactly a prefix whose closing last <= upto. Oracle per unlink event "
-             "on the implementation's trace: oldest first, no live entry in the chunk, a covering purge durably recorded in a "
-             "remaining file; liveness after flush+idle; under injected faults.",
-             technique="Lean 4 lemmas on the worker machine and popObsolete + trace oracle under fault injection + correspondence",
+ "C08": dict(text="Proved at system level for every legal history, every interleaving and every worker outcome along which the worker "
+             "stays alive (Props/C08Sys): the linked files are exactly dropped-but-not-yet-unlinked chunks ++ live chunks, in order, each "
+             "file id = previous id + previous chunk length, every file starting with a State snapshot (c08_remaining_files_gap_free_suffix); "
+             "a worker step unlinks at most the head of the removal list = the oldest linked file (c08_unlinks_oldest_first); whenever the "
+             "worker unlinks chunk c, the journal position m right behind the purge that made it obsolete is at or below the acknowledged "
+             "position, every remaining file is written and durable up to m (or its end), every later prefix of the history has a purge "
+             "point at or beyond c's closing last, and no index entry lives in c (c08_unlink_only_after_purge_durable); after flush + "
+             "workerIdle with no failed sync outstanding nothing is left to unlink and the directory holds exactly the live chunks "
+             "(c08_flushed_idle_gone). Worker level (Props/C08): unlink only after a good sync, list order, popObsolete drops a prefix. "
+             "Not a theorem (false in the model, recorded findings): a chunk closed after the purge that covers it stays until the next "
+             "purge call; a removal postponed by a failed sync waits for the next removal request. Trace oracle per unlink event on the "
+             "implementation under injected faults + correspondence.",
+             technique="Lean 4 invariant proofs (ghost store of dropped chunks, per-chunk purge marker <= acknowledged position) + trace oracle under fault injection + correspondence",
              ref="8 C08"),
  "C10": dict(text="Proved for all record lists and all positions: parsing encAll rs is clean; a cut inside a record yields exactly "
              "the complete records before it with eof; a zero tail of any length m>=1 yields them with eof (m<28) or invalid "
@@ -99,7 +110,13 @@ CLAIMS = {
              "history without open leaves the whole system unchanged (c14_drop_quiesces_system). Oracle: no event after "
              "`dropped`, worker not alive, the LOCK file is still held whenever the dropping store's worker issues a call "
              "(probe), also when the store is dropped by a panic unwinding; reopen shows the acknowledged state and the new "
-             "instance purges and flushes.",
+             "instance purges and flushes. System level (Props/C14Busy): a drop issued while the worker still has queued writes, syncs and "
+             "unlinks equals `workerIdle` then drop (c14_busy_drop_eq_idle_drop); for every legal history ending with nothing pending on "
+             "the caller side and no removal postponed by a failed sync, drop + (any steps without open) + open with ANY configuration "
+             "succeeds, touches no file, shows the same state, index and chunk table, re-establishes all invariants, and every further "
+             "history behaves like the reference log (c14_busy_drop_then_open, c14_after_busy_drop_nothing_changes, "
+             "c14_busy_history_after_restart); c14_busy_postponed_needed shows the hypothesis is needed for the chunk table (state and "
+             "index are still equal).",
              technique="Lean 4 termination + invariant proof for drop + gated-worker scenarios with a lock probe",
              ref="8 C14"),
  "C07": dict(text="Proved (c07_reads_with_truncate): for every configuration incl. cache limits 0, every history of legal calls "
